@@ -642,11 +642,3 @@ func directOutcome(from, to cty.Type, v cty.Value, unsafe bool, un *model.TNode,
 	}
 	return k, w
 }
-
-func joinVals(vs []cty.Value) string {
-	p := make([]string, len(vs))
-	for i, v := range vs {
-		p[i] = fmt.Sprintf("%#v", v)
-	}
-	return strings.Join(p, ", ")
-}
